@@ -4,7 +4,7 @@ EXTENDS ValuePipe, Json, SequencesExt
 CONSTANT OutFile
 Lit(x) == [op |-> "lit", v |-> x, l |-> 0, r |-> 0]
 Ph(k) == [op |-> "ph", v |-> IntV(0), k |-> k, l |-> 0, r |-> 0]
-Lits == {Lit(IntV(n)) : n \in 0..3} \cup {Lit(BoolV(b)) : b \in BOOLEAN}
+Lits == {Lit(IntV(n)) : n \in 0..3} \cup {Lit(BoolV(b)) : b \in BOOLEAN} \cup {Lit(StrV(x)) : x \in {"x", "yz"}}
 Phs == {Ph("a"), Ph("b")}
 Leafs == Lits \cup Phs
 Ops == {"+", "-", "*", ">", "==", "&&", "||"}
@@ -12,15 +12,18 @@ Node(o, x, y) == [op |-> o, v |-> IntV(0), k |-> "", l |-> x, r |-> y]
 D1 == {Node(o, x, y) : o \in Ops, x \in Leafs, y \in Leafs}
 D2 == {Node(o, x, y) : o \in {"+", "*", "==", "&&", ">"}, x \in {d \in D1 : d.op \in {"+", "-", ">", "||"}}, y \in {Lit(IntV(2)), Lit(BoolV(TRUE)), Ph("a")}}
 Cfgs == {[a |-> IntV(2), b |-> IntV(3)], [a |-> IntV(0), b |-> IntV(1)], [a |-> BoolV(TRUE), b |-> BoolV(FALSE)]}
-Show(x) == IF x.t = "err" THEN "err" ELSE IF x.t = "bool" THEN (IF x.v = 1 THEN "true" ELSE "false") ELSE ToString(x.v)
+Show(x) == IF x.t = "err" THEN "err" ELSE IF x.t = "bool" THEN (IF x.v = 1 THEN "true" ELSE "false")
+           ELSE IF x.t = "str" THEN x.s ELSE ToString(x.v)
+Quote(x) == IF x.t = "str" THEN "'" \o x.s \o "'" ELSE Show(x)
 \* render an expression as the text of a #{...} body (fully parenthesised)
 RECURSIVE Text(_)
-Text(e) == IF e.op = "lit" THEN Show(e.v)
+Text(e) == IF e.op = "lit" THEN Quote(e.v)
            ELSE IF e.op = "ph" THEN "${" \o e.k \o "}"
            ELSE "(" \o Text(e.l) \o " " \o e.op \o " " \o Text(e.r) \o ")"
 \* the evaluator resolves placeholders through cfg: make Eval's "ph" case read the key
 EvalT(e, c) == Eval(e, c)
-Cases == {[text |-> Text(e), cfg |-> [a |-> Show(c.a), b |-> Show(c.b)], val |-> Show(EvalT(e, c))] : e \in D1 \cup D2, c \in Cfgs}
+AllCases == {[text |-> Text(e), cfg |-> [a |-> Show(c.a), b |-> Show(c.b)], val |-> Show(EvalT(e, c)), t |-> EvalT(e, c).t] : e \in D1 \cup D2, c \in Cfgs}
+Cases == {[text |-> x.text, cfg |-> x.cfg, val |-> x.val] : x \in {y \in AllCases : y.t # "oos"}}
 ASSUME ndJsonSerialize(OutFile, SetToSeq(Cases))
 VARIABLE x
 Init == x = 0
